@@ -521,6 +521,12 @@ impl<'c> Gen<'c> {
         let Kind::S { loc, bounded, ordered, once, .. } = self.vars[a].kind else { unreachable!() };
         let Some(b) = self.find(|k| matches!(k, Kind::S { el: El::P, loc: l2, .. } if *l2 == loc)) else { return false };
         let Kind::S { bounded: b2, once: once2, .. } = self.vars[b].kind else { unreachable!() };
+        if bounded && !b2 && self.mode == Mode::Safe {
+            // confirmed finding (k_bounded_join_unbounded_*): `bounded.join(unbounded)` is typed
+            // Bounded; excluded by construction
+            self.avoided.push("bounded-join-unbounded".into());
+            return false;
+        }
         self.class("join");
         if b2 {
             self.class("bounded-side");
@@ -540,6 +546,10 @@ impl<'c> Gen<'c> {
         let Kind::S { loc, bounded, ordered, once, .. } = self.vars[a].kind else { unreachable!() };
         let Some(b) = self.find(|k| matches!(k, Kind::S { el: El::I, loc: l2, .. } if *l2 == loc)) else { return false };
         let Kind::S { bounded: b2, once: once2, .. } = self.vars[b].kind else { unreachable!() };
+        if bounded && !b2 && self.mode == Mode::Safe {
+            self.avoided.push("bounded-join-unbounded".into());
+            return false;
+        }
         self.class("cross_product");
         if b2 {
             self.class("bounded-side");
@@ -776,6 +786,10 @@ impl<'c> Gen<'c> {
                 // keyed join with another keyed stream at the same location
                 let Some(b) = self.find(|k| matches!(k, Kind::KS { loc: l2, .. } if *l2 == loc)) else { return false };
                 let Kind::KS { bounded: b2, once: r2, .. } = self.vars[b].kind else { unreachable!() };
+                if bounded && !b2 && self.mode == Mode::Safe {
+                    self.avoided.push("bounded-join-unbounded".into());
+                    return false;
+                }
                 self.class("keyed-join");
                 self.stateful(loc);
                 self.new_var(
